@@ -22,12 +22,26 @@ RULE = ('one run = seeded universe (ids colliding across lexicons at a per-run r
         'oracle after every op: complete field-exact model image of every installed extension '
         'family (lists compared whole, so extras fail). distinct = event digests; non-trivial '
         '= the final add installed >=1 lexicon with >=1 entry and >=1 synset into a non-empty '
-        'store or with a non-default knob')
+        'store or with a non-default knob. 0.3% of the runs use a BIG universe (two lexicons of '
+        '1030-2050 entries/synsets, default BATCH_SIZE) so that size thresholds are crossed')
 ASSUMPTIONS = ['the document space is sampled by the workload generator; simulation adds '
                'independence from history, neighbours, knobs, chunking, route and restart']
 
 
+def build_big(seed):
+    rng = subseed(seed, 'universe-big')
+    u = U.generate_big(rng)
+    plan = [{'op': 'add', 'res': 'r0', 'route': rng.choice(['xml', 'gz', 'mem']),
+             'short_reads': rng.random() < 0.5},
+            {'op': 'add', 'res': 'r1', 'route': rng.choice(['xml', 'xz'])}]
+    if rng.random() < 0.5:
+        plan.insert(1, {'op': 'restart'})
+    return u, plan
+
+
 def build(seed):
+    if subseed(seed, 'big').random() < 0.003:
+        return build_big(seed)     # default BATCH_SIZE, > 1000 rows per table
     rng = subseed(seed, 'universe')
     prof = U.Profile.draw(rng)
     prof['special'] = rng.choice([0.15, 0.5, 0.8])
